@@ -1220,6 +1220,7 @@ theorem drop_kind (L : Lib) (s : Val) (f : Fn) (r : Val) (k : Kind) (hk : s.kind
     | panic => rw [hd] at h; cases h
   | null => cases hk
   | int i => cases hk
+  | frac b t => cases hk
   | str cs =>
     injection hk with hk; subst hk
     change multi (.str cs) (L.dropWhile f.pred) = .ok r at h
@@ -2332,28 +2333,40 @@ theorem lib_combinations : implLib.combinations = specLib.combinations := by
 streams are never equal, as in `Seq::eq`) -/
 
 theorem val_beq_symm : (∀ a b : Val, Val.beq a b = Val.beq b a) ∧ (∀ a b : List Val, Val.beqList a b = Val.beqList b a) := by
+  have beq_comm : ∀ {τ : Type} [BEq τ] [LawfulBEq τ] (a b : τ), (a == b) = (b == a) := by
+    intro τ _ _ a b
+    exact Bool.eq_iff_iff.mpr ⟨fun h => by simpa using (by simpa using h : a = b).symm,
+      fun h => by simpa using (by simpa using h : b = a).symm⟩
   apply Val.beq.mutual_induct (motive_1 := fun a b => Val.beq a b = Val.beq b a)
     (motive_2 := fun a b => Val.beqList a b = Val.beqList b a)
-  · rfl
-  · intro a b; simp only [Val.beq]; exact Bool.eq_iff_iff.mpr ⟨fun h => by simpa using (by simpa using h : a = b).symm, fun h => by simpa using (by simpa using h : b = a).symm⟩
-  · intro a b; simp only [Val.beq]; exact Bool.eq_iff_iff.mpr ⟨fun h => by simpa using (by simpa using h : a = b).symm, fun h => by simpa using (by simpa using h : b = a).symm⟩
-  · intro a b h; simpa only [Val.beq] using h
-  · intro a b; simp only [Val.beq]; exact Bool.eq_iff_iff.mpr ⟨fun h => by simpa using (by simpa using h : a = b).symm, fun h => by simpa using (by simpa using h : b = a).symm⟩
-  · intro a b; simp only [Val.beq]; exact Bool.eq_iff_iff.mpr ⟨fun h => by simpa using (by simpa using h : a = b).symm, fun h => by simpa using (by simpa using h : b = a).symm⟩
-  · intro a b h; simpa only [Val.beq] using h
-  · intro t x h1 h2 h3 h4 h5 h6 h7
+  case case1 => rfl
+  case case2 => intro a b; simp only [Val.beq]; exact beq_comm a b
+  case case3 => intro a _ b; simp only [Val.beq]; exact beq_comm _ _
+  case case4 => intro _ a b; simp only [Val.beq]; exact beq_comm _ _
+  case case5 => intro _ a _ b; simp only [Val.beq]; exact beq_comm a b
+  case case6 => intro a b; simp only [Val.beq]; exact beq_comm a b
+  case case7 => intro a b h; simpa only [Val.beq] using h
+  case case8 => intro a b; simp only [Val.beq]; exact beq_comm a b
+  case case9 => intro a b; simp only [Val.beq]; exact beq_comm a b
+  case case10 => intro a b h; simpa only [Val.beq] using h
+  case case11 =>
+    intro t x h1 h2 h3 h4 h5 h6 h7 h8 h9 h10
     cases t <;> cases x <;> first
       | rfl
-      | exact absurd rfl (fun _ => h1 rfl rfl)
+      | exact (h1 rfl rfl).elim
       | exact (h2 _ _ rfl rfl).elim
-      | exact (h3 _ _ rfl rfl).elim
-      | exact (h4 _ _ rfl rfl).elim
-      | exact (h5 _ _ rfl rfl).elim
+      | exact (h3 _ _ _ rfl rfl).elim
+      | exact (h4 _ _ _ rfl rfl).elim
+      | exact (h5 _ _ _ _ rfl rfl).elim
       | exact (h6 _ _ rfl rfl).elim
       | exact (h7 _ _ rfl rfl).elim
-  · rfl
-  · intro x xs y ys h1 h2; simp only [Val.beqList, h1, h2]
-  · intro t x h1 h2
+      | exact (h8 _ _ rfl rfl).elim
+      | exact (h9 _ _ rfl rfl).elim
+      | exact (h10 _ _ rfl rfl).elim
+  case case12 => rfl
+  case case13 => intro x xs y ys h1 h2; simp only [Val.beqList, h1, h2]
+  case case14 =>
+    intro t x h1 h2
     cases t <;> cases x <;> first
       | rfl
       | exact (h1 rfl rfl).elim
@@ -2365,42 +2378,62 @@ theorem val_beq_trans :
   apply Val.beq.mutual_induct
     (motive_1 := fun a b => ∀ c, Val.beq a b = true → Val.beq b c = true → Val.beq a c = true)
     (motive_2 := fun a b => ∀ c, Val.beqList a b = true → Val.beqList b c = true → Val.beqList a c = true)
-  · intro c _ h; exact h
-  · intro a b c h1 h2
+  case case1 => intro c _ h; exact h
+  case case2 =>
+    intro a b c h1 h2
+    cases c <;> simp only [Val.beq, beq_iff_eq] at h1 h2 ⊢ <;> first | omega | cases h2
+  case case3 =>
+    intro a _ b c h1 h2
+    cases c <;> simp only [Val.beq, beq_iff_eq] at h1 h2 ⊢ <;> first | omega | cases h2
+  case case4 =>
+    intro _ a b c h1 h2
+    cases c <;> simp only [Val.beq, beq_iff_eq] at h1 h2 ⊢ <;> first | omega | cases h2
+  case case5 =>
+    intro _ a _ b c h1 h2
+    cases c <;> simp only [Val.beq, beq_iff_eq] at h1 h2 ⊢ <;> first | omega | cases h2
+  case case6 =>
+    intro a b c h1 h2
     have : a = b := by simpa [Val.beq] using h1
     subst this; exact h2
-  · intro a b c h1 h2
-    have : a = b := by simpa [Val.beq] using h1
-    subst this; exact h2
-  · intro a b ih c h1 h2
+  case case7 =>
+    intro a b ih c h1 h2
     cases c <;> simp only [Val.beq] at h1 h2 ⊢ <;> first | exact ih _ h1 h2 | cases h2
-  · intro a b c h1 h2
+  case case8 =>
+    intro a b c h1 h2
     have : a = b := by simpa [Val.beq] using h1
     subst this; exact h2
-  · intro a b c h1 h2
+  case case9 =>
+    intro a b c h1 h2
     have : a = b := by simpa [Val.beq] using h1
     subst this; exact h2
-  · intro a b ih c h1 h2
+  case case10 =>
+    intro a b ih c h1 h2
     cases c <;> simp only [Val.beq] at h1 h2 ⊢ <;> first | exact ih _ h1 h2 | cases h2
-  · intro t x h1 h2 h3 h4 h5 h6 h7 c hb _
+  case case11 =>
+    intro t x h1 h2 h3 h4 h5 h6 h7 h8 h9 h10 c hb _
     exfalso
     cases t <;> cases x <;> first
       | exact h1 rfl rfl
       | exact h2 _ _ rfl rfl
-      | exact h3 _ _ rfl rfl
-      | exact h4 _ _ rfl rfl
-      | exact h5 _ _ rfl rfl
+      | exact h3 _ _ _ rfl rfl
+      | exact h4 _ _ _ rfl rfl
+      | exact h5 _ _ _ _ rfl rfl
       | exact h6 _ _ rfl rfl
       | exact h7 _ _ rfl rfl
+      | exact h8 _ _ rfl rfl
+      | exact h9 _ _ rfl rfl
+      | exact h10 _ _ rfl rfl
       | (simp only [Val.beq] at hb; cases hb)
-  · intro c _ h; exact h
-  · intro x xs y ys ih1 ih2 c h1 h2
+  case case12 => intro c _ h; exact h
+  case case13 =>
+    intro x xs y ys ih1 ih2 c h1 h2
     cases c with
     | nil => simp only [Val.beqList] at h2; cases h2
     | cons z zs =>
       simp only [Val.beqList, Bool.and_eq_true] at h1 h2 ⊢
       exact ⟨ih1 z h1.1 h2.1, ih2 zs h1.2 h2.2⟩
-  · intro t x h1 h2 c hb _
+  case case14 =>
+    intro t x h1 h2 c hb _
     exfalso
     cases t <;> cases x <;> first
       | exact h1 rfl rfl
@@ -2802,6 +2835,316 @@ theorem merge_lookup [BEq κ] [LawfulBEq κ] (g : Option (β → β → β)) (ds
 /-- non-vacuity: `merge({1: 2, 3: 4}, {1: 10, 5: 6}, -)` -/
 example : merge (liftOp (some fun a b : Int => a - b)) [[(1, 2), (3, 4)], [(1, 10), (5, 6)]]
     = .ok [((1 : Nat), (-8 : Int)), (3, 4), (5, 6)] := by decide
+
+
+/-! ## join with pieces that are converted on the way (bytes separator) -/
+
+theorem joinGoE_started (sep : List γ) (disp : α → Out (List γ)) (acc : List γ) (xs : List α) :
+    joinGoE sep disp true acc xs
+      = (SeqSpec.mapE disp xs).map fun ps => acc ++ (ps.map (fun p => sep ++ p)).flatten := by
+  induction xs generalizing acc with
+  | nil => simp [joinGoE, SeqSpec.mapE]
+  | cons x xs ih =>
+    simp only [joinGoE, SeqSpec.mapE, if_true]
+    cases disp x with
+    | ok p =>
+      simp only [SeqSpec.bind_ok, ih]
+      cases SeqSpec.mapE disp xs <;> simp [SeqSpec.bind, Out.map]
+    | throw => rfl
+    | panic => rfl
+
+/-- **join = intercalate, also when the pieces are converted** (bytes separator and bytes /
+list / vector pieces; empty pieces anywhere, the leading ones included, still get their
+separators) -/
+theorem joinE_eq (sep : List γ) (disp : α → Out (List γ)) (xs : List α) :
+    joinE sep disp xs = SeqSpec.joinE sep disp xs := by
+  cases xs with
+  | nil => simp [joinE, joinGoE, SeqSpec.joinE, SeqSpec.mapE, List.intercalate]
+  | cons x xs =>
+    simp only [joinE, joinGoE, SeqSpec.joinE, SeqSpec.mapE, Bool.false_eq_true, if_false, List.nil_append]
+    cases disp x with
+    | ok p =>
+      simp only [SeqSpec.bind_ok, joinGoE_started]
+      cases SeqSpec.mapE disp xs <;> simp [SeqSpec.bind, Out.map, intercalate_eq_flatten]
+    | throw => rfl
+    | panic => rfl
+
+theorem lib_joinE : implLib.joinE = specLib.joinE := by funext s d xs; exact joinE_eq s d xs
+
+/-- in particular an empty piece in front keeps its separator: `join([B[], B[1]], B[0]) = B[0, 1]` -/
+example : joinE [0] (fun p : List Nat => .ok p) [[], [1]] = .ok [0, 1] := by decide
+
+/-! ## min / max: the FIRST of several equal extrema wins -/
+
+/-- the fold behind `min` / `max` for a comparison that never fails: `b` replaces the current
+extremum `r` only if it beats it -/
+def pickStep (beats : α → α → Bool) (r b : α) : α := if beats b r then b else r
+
+theorem extremumE_pure (cmp : α → α → Ordering) (bias : Ordering) (x : α) (xs : List α) :
+    SeqSpec.extremumE (fun a b => .ok (cmp a b)) bias (x :: xs)
+      = .ok (xs.foldl (pickStep fun b r => cmp b r == bias) x) := by
+  simp only [SeqSpec.extremumE, SeqSpec.fold1E, SeqSpec.bind_ok]
+  have := foldlE_pure (pickStep fun b r => cmp b r == bias) x xs
+  simpa [pickStep] using this
+
+/-- the invariant of the fold: everything before the current extremum is beaten by it, nothing
+after it (so far) beats it -/
+theorem pick_first (beats : α → α → Bool) (L : List α)
+    (htr : ∀ a ∈ L, ∀ b ∈ L, ∀ c ∈ L, beats a b = true → beats b c = true → beats a c = true)
+    (hneg : ∀ a ∈ L, ∀ b ∈ L, ∀ c ∈ L, beats a b = true → beats c b = false → beats a c = true) :
+    ∀ (xs pre : List α) (c : α) (mid : List α), L = pre ++ c :: mid ++ xs →
+      (∀ y ∈ pre, beats c y = true) → (∀ y ∈ mid, beats y c = false) →
+      ∃ pre' post, L = pre' ++ xs.foldl (pickStep beats) c :: post
+        ∧ (∀ y ∈ pre', beats (xs.foldl (pickStep beats) c) y = true)
+        ∧ (∀ y ∈ post, beats y (xs.foldl (pickStep beats) c) = false) := by
+  intro xs
+  induction xs with
+  | nil =>
+    intro pre c mid hL h1 h2
+    exact ⟨pre, mid, by simpa using hL, h1, h2⟩
+  | cons b xs ih =>
+    intro pre c mid hL h1 h2
+    have hc : c ∈ L := by rw [hL]; simp
+    have hb : b ∈ L := by rw [hL]; simp
+    simp only [List.foldl_cons]
+    by_cases hbc : beats b c = true
+    · have hstep : pickStep beats c b = b := by simp [pickStep, hbc]
+      rw [hstep]
+      apply ih (pre ++ c :: mid) b [] (by rw [hL]; simp)
+      · intro y hy
+        rcases List.mem_append.mp hy with hy | hy
+        · exact htr b hb c hc y (by rw [hL]; simp [hy]) hbc (h1 y hy)
+        · rcases List.mem_cons.mp hy with rfl | hy
+          · exact hbc
+          · exact hneg b hb c hc y (by rw [hL]; simp [hy]) hbc (h2 y hy)
+      · intro y hy; cases hy
+    · have hbc' : beats b c = false := by simpa using hbc
+      have hstep : pickStep beats c b = c := by simp [pickStep, hbc']
+      rw [hstep]
+      apply ih pre c (mid ++ [b]) (by rw [hL]; simp) h1
+      intro y hy
+      rcases List.mem_append.mp hy with hy | hy
+      · exact h2 y hy
+      · simp at hy; subst hy; exact hbc'
+
+/-- **max_first_of_ties** (and `min`): for a comparison that is a strict weak order on the input
+(`beats` transitive and negatively transitive), the result of `min` / `max` — in every call form,
+they all run this loop — splits the input as `pre ++ r :: post` where `r` beats every element of
+`pre` and no element of `post` beats `r`: of several equal extrema the FIRST one is returned, with
+its own representation (`max([1, 1.0]) = 1`, `max([1.0, 1]) = 1.0`) -/
+theorem max_first_of_ties (cmp : α → α → Ordering) (bias : Ordering) (xs : List α) (r : α)
+    (htr : ∀ a ∈ xs, ∀ b ∈ xs, ∀ c ∈ xs, cmp a b = bias → cmp b c = bias → cmp a c = bias)
+    (hneg : ∀ a ∈ xs, ∀ b ∈ xs, ∀ c ∈ xs, cmp a b = bias → cmp c b ≠ bias → cmp a c = bias)
+    (h : extremum (fun a b => .ok (cmp a b)) bias xs = .ok r) :
+    ∃ pre post, xs = pre ++ r :: post ∧ (∀ y ∈ pre, cmp r y = bias) ∧ (∀ y ∈ post, cmp y r ≠ bias) := by
+  rw [extremum_eq] at h
+  cases xs with
+  | nil => simp [SeqSpec.extremumE, SeqSpec.fold1E] at h
+  | cons x xs =>
+    rw [extremumE_pure] at h
+    injection h with h
+    have key := pick_first (fun b r => cmp b r == bias) (x :: xs)
+      (by intro a ha b hb c hc h1 h2; simp only [beq_iff_eq] at *; exact htr a ha b hb c hc h1 h2)
+      (by intro a ha b hb c hc h1 h2; simp only [beq_iff_eq, beq_eq_false_iff_ne] at *; exact hneg a ha b hb c hc h1 h2)
+      xs [] x [] (by simp) (by intro y hy; cases hy) (by intro y hy; cases hy)
+    rw [h] at key
+    obtain ⟨pre, post, e, h1, h2⟩ := key
+    exact ⟨pre, post, e, fun y hy => by simpa using h1 y hy, fun y hy => by simpa using h2 y hy⟩
+
+
+theorem pairwise_of_forall_mem (R : α → α → Prop) (l : List α) (h : ∀ a ∈ l, ∀ b ∈ l, R a b) : l.Pairwise R := by
+  induction l with
+  | nil => exact List.Pairwise.nil
+  | cons x l ih =>
+    rw [List.pairwise_cons]
+    exact ⟨fun b hb => h x (by simp) b (by simp [hb]),
+      ih fun a ha b hb => h a (by simp [ha]) b (by simp [hb])⟩
+
+/-- the head of the stable sort is the FIRST minimal element of the input -/
+theorem head_sort_first_min (le : α → α → Bool) (xs : List α) (h : TotalPreorderOn le xs) :
+    (SeqSpec.sort le xs).head? = (xs.filter fun y => xs.all fun z => le y z).head? := by
+  obtain ⟨hsorted, hperm, hstab⟩ := sort_stable_perm le xs h
+  generalize hS : SeqSpec.sort le xs = S at *
+  let isMin := fun y => xs.all fun z => le y z
+  cases S with
+  | nil =>
+    have : xs = [] := List.length_eq_zero_iff.mp (by simpa using hperm.length_eq.symm)
+    subst this; rfl
+  | cons hd T =>
+    have hhd : hd ∈ xs := hperm.mem_iff.mp (by simp)
+    have hmin : isMin hd = true := by
+      simp only [isMin, List.all_eq_true]
+      intro z hz
+      have hz' : z ∈ hd :: T := hperm.mem_iff.mpr hz
+      rcases List.mem_cons.mp hz' with rfl | hz'
+      · have := h.total z hz z hz; simpa using this
+      · exact (List.pairwise_cons.mp hsorted).1 z hz'
+    have hys : (xs.filter isMin).Pairwise (fun a b => le a b = true) := by
+      apply pairwise_of_forall_mem
+      intro a ha b hb
+      have ha' := (List.mem_filter.mp ha).2
+      simp only [isMin, List.all_eq_true] at ha'
+      exact ha' b (List.mem_filter.mp hb).1
+    have hsub := hstab (xs.filter isMin) hys List.filter_sublist
+    have hlen : ((hd :: T).filter isMin).length = (xs.filter isMin).length := (hperm.filter isMin).length_eq
+    have hne : xs.filter isMin ≠ [] := by
+      intro h0
+      have : hd ∈ xs.filter isMin := List.mem_filter.mpr ⟨hhd, hmin⟩
+      rw [h0] at this; cases this
+    cases hy : xs.filter isMin with
+    | nil => exact absurd hy hne
+    | cons m ys' =>
+      rw [hy] at hsub hlen
+      show some hd = some m
+      rcases List.sublist_cons_iff.mp hsub with hT | ⟨r, hr, _⟩
+      · exfalso
+        have h1 := hT.filter isMin
+        have hall : (m :: ys').filter isMin = m :: ys' := by
+          rw [← hy, List.filter_filter]; simp
+        rw [hall] at h1
+        have h2 := h1.length_le
+        simp only [List.filter_cons, hmin, if_true, List.length_cons] at hlen
+        simp only [List.length_cons] at h2
+        omega
+      · injection hr with hr _
+        rw [hr]
+
+/-- **min(xs) = first(sort(xs))**, representation included: for a comparison that is a total
+preorder on the input, the fold of `min` returns exactly the head of the stable sort -/
+theorem min_eq_head_sort (le : α → α → Bool) (x0 : α) (rest : List α) (h : TotalPreorderOn le (x0 :: rest)) :
+    (SeqSpec.sort le (x0 :: rest)).head? = some (rest.foldl (pickStep fun b r => !(le r b)) x0) := by
+  rw [head_sort_first_min le _ h]
+  have htot : ∀ a ∈ x0 :: rest, ∀ b ∈ x0 :: rest, le a b = false → le b a = true := by
+    intro a ha b hb hab
+    have := h.total a ha b hb
+    simpa [hab] using this
+  obtain ⟨pre, post, e, h1, h2⟩ := pick_first (fun b r => !(le r b)) (x0 :: rest)
+    (by
+      intro a ha b hb c hc hab hbc
+      simp only [Bool.not_eq_true'] at *
+      cases hca : le c a with
+      | false => rfl
+      | true =>
+        have hab' := htot b hb a ha hab
+        have := h.trans c hc a ha b hb hca hab'
+        rw [this] at hbc; cases hbc)
+    (by
+      intro a ha b hb c hc hab hcb
+      simp only [Bool.not_eq_true', Bool.not_eq_false'] at *
+      cases hca : le c a with
+      | false => rfl
+      | true =>
+        have := h.trans b hb c hc a ha hcb hca
+        rw [this] at hab; cases hab)
+    rest [] x0 [] (by simp) (by intro y hy; cases hy) (by intro y hy; cases hy)
+  generalize rest.foldl (pickStep fun b r => !(le r b)) x0 = r at *
+  have hr : r ∈ x0 :: rest := by rw [e]; simp
+  have hmin : ((x0 :: rest).all fun z => le r z) = true := by
+    rw [List.all_eq_true]
+    intro z hz
+    rw [e] at hz
+    rcases List.mem_append.mp hz with hz | hz
+    · have := h1 z hz
+      simp only [Bool.not_eq_true'] at this
+      exact htot z (by rw [e]; simp [hz]) r hr this
+    · rcases List.mem_cons.mp hz with rfl | hz
+      · have := h.total z hr z hr; simpa using this
+      · have := h2 z hz; simpa using this
+  have hpre : pre.filter (fun y => (x0 :: rest).all fun z => le y z) = [] := by
+    rw [List.filter_eq_nil_iff]
+    intro y hy hall
+    rw [List.all_eq_true] at hall
+    have := h1 y hy
+    simp only [Bool.not_eq_true'] at this
+    rw [hall r hr] at this; cases this
+  have hsplit : (x0 :: rest).filter (fun y => (x0 :: rest).all fun z => le y z)
+      = (pre ++ r :: post).filter (fun y => (x0 :: rest).all fun z => le y z) :=
+    congrArg (List.filter fun y => (x0 :: rest).all fun z => le y z) e
+  rw [hsplit, List.filter_append, hpre, List.nil_append, List.filter_cons, hmin]
+  rfl
+
+
+/-- the same on the Impl side: with a comparator that answers consistently in both directions and is
+a total preorder on the input, `min(xs)` (any call form) is `first(sort(xs))` -/
+theorem min_impl_eq_head_sort (cmp : α → α → Ordering) (hsw : ∀ a b, cmp b a = (cmp a b).swap)
+    (x0 : α) (rest : List α)
+    (h : TotalPreorderOn (SeqSpec.leOfCmp fun a b => .ok (cmp a b)) (x0 :: rest)) :
+    (extremum (fun a b => .ok (cmp a b)) .lt (x0 :: rest)).map some
+      = .ok (SeqSpec.sort (SeqSpec.leOfCmp fun a b => .ok (cmp a b)) (x0 :: rest)).head? := by
+  rw [extremum_eq, extremumE_pure, min_eq_head_sort _ x0 rest h]
+  have : (pickStep fun b r => cmp b r == Ordering.lt)
+      = (pickStep fun b r => !(SeqSpec.leOfCmp (fun a b => Out.ok (cmp a b)) r b)) := by
+    funext r b
+    have hb : (cmp b r == Ordering.lt) = !(SeqSpec.leOfCmp (fun a b => Out.ok (cmp a b)) r b) := by
+      simp only [SeqSpec.leOfCmp, hsw r b]
+      cases cmp r b <;> rfl
+    simp only [pickStep, hb]
+  rw [this]
+  rfl
+
+/-- non-vacuity: `min([1.5, 3/2])` is the float, `sort` puts it first too (ties keep input order) -/
+example : SeqSpec.extremumE (fun a b : Nat × Bool => .ok (compare a.1 b.1)) .lt [(3, true), (3, false), (5, true)]
+    = .ok (3, true) := by decide
+
+
+/-! ## dictionary-building loops keep the FIRST spelling of a key
+(`1`, `1.0` and `1/1` are one key; `frequencies`, `classify` / `group_all`, `set` and `merge` store
+the representation that arrived first — an existing entry is updated in place, never re-keyed) -/
+
+theorem entryIncr_keys [BEq κ] (k : κ) (m : List (κ × Nat)) :
+    (entryIncr k m).map (·.1) = if m.any (·.1 == k) then m.map (·.1) else m.map (·.1) ++ [k] := by
+  induction m with
+  | nil => rfl
+  | cons e m ih =>
+    obtain ⟨k', c⟩ := e
+    simp only [entryIncr, List.any_cons, List.map_cons]
+    cases h : k' == k with
+    | true => simp [h]
+    | false =>
+      simp only [h, Bool.false_eq_true, if_false, List.map_cons, Bool.false_or, ih]
+      split <;> rfl
+
+theorem entryPush_keys [BEq κ] (k : κ) (i : α) (m : List (κ × List α)) :
+    (entryPush k i m).map (·.1) = if m.any (·.1 == k) then m.map (·.1) else m.map (·.1) ++ [k] := by
+  induction m with
+  | nil => rfl
+  | cons e m ih =>
+    obtain ⟨k', g⟩ := e
+    simp only [entryPush, List.any_cons, List.map_cons]
+    cases h : k' == k with
+    | true => simp [h]
+    | false =>
+      simp only [h, Bool.false_eq_true, if_false, List.map_cons, Bool.false_or, ih]
+      split <;> rfl
+
+theorem mergeEntry_keys [BEq κ] (f : Option (β → β → Out β)) (k : κ) (v : β) (m m' : List (κ × β))
+    (h : mergeEntry f k v m = .ok m') :
+    m'.map (·.1) = if m.any (·.1 == k) then m.map (·.1) else m.map (·.1) ++ [k] := by
+  induction m generalizing m' with
+  | nil => simp [mergeEntry] at h; subst h; rfl
+  | cons e m ih =>
+    obtain ⟨k', old⟩ := e
+    simp only [mergeEntry] at h
+    cases hk : k' == k with
+    | true =>
+      simp only [hk, if_true] at h
+      cases f with
+      | none => injection h with h; subst h; simp [hk]
+      | some f =>
+        simp only at h
+        cases hf : f old v with
+        | ok r => rw [hf] at h; injection h with h; subst h; simp [hk]
+        | throw => rw [hf] at h; cases h
+        | panic => rw [hf] at h; cases h
+    | false =>
+      simp only [hk, Bool.false_eq_true, if_false] at h
+      cases hm : mergeEntry f k v m with
+      | ok m2 =>
+        rw [hm] at h; injection h with h; subst h
+        simp only [List.map_cons, List.any_cons, hk, Bool.false_or, ih m2 hm]
+        split <;> simp
+      | throw => rw [hm] at h; cases h
+      | panic => rw [hm] at h; cases h
 
 
 end Noulith.C13
